@@ -388,14 +388,17 @@ def run(ck):
         from sa.dictval import DictInterp
         ovf = prog.func('blocklib.cblocks:Override.calc_output')
         INP, OVR, NUL = 'INPUT', 'OVERRIDE', 'NULL'
-        for same in (True, False):
-            env = {'self._in.override': NUL if same else OVR, "self._in['override']": NUL if same else OVR,
-                   'self._in.input': INP, "self._in['input']": INP, 'self._null': NUL}
+        # third case: a value EQUAL to null_value that is another object (1.0 read from a file vs the
+        # configured 1.0): the documented test is equality, not identity
+        NUL2, NUL2b = tuple([1.5, 'null']), tuple([1.5, 'null'])       # equal, not identical
+        for label, ovr_, nul_, want in (('==', NUL, NUL, INP), ('!=', OVR, NUL, OVR),
+                                        ('== (equal, another object)', NUL2b, NUL2, INP)):
+            env = {'self._in.override': ovr_, "self._in['override']": ovr_,
+                   'self._in.input': INP, "self._in['input']": INP, 'self._null': nul_}
             got = DictInterp(R12, env).run(ovf.node.body)
             ck.abstract_cases += 1
-            want = INP if same else OVR
-            ck.ob(R12, f"{ovf.fid} :: override {'==' if same else '!='} null_value", got == want,
-                  f"documented: {'pass the input' if same else 'the override value'}; code yields {got}",
+            ck.ob(R12, f"{ovf.fid} :: override {label} null_value", got == want,
+                  f"documented: {'pass the input' if want == INP else 'the override value'}; code yields {got}",
                   ovf, ovf.node)
         # Xor: parity of the number of true inputs, evaluated for every truthiness vector of 0..4 inputs
         fn, unpack_false, desc, xin, fnode = _gate_func(ck, R12, 'blocklib.cblocks:Xor')
